@@ -21,7 +21,8 @@ Clauses of the statement and where they are:
   `refined_true_amplitudes_perm` (every number of iterations, every intermediate array)
 * 'true spectrum' has the original amplitudes ............... `true_spectrum_amplitude_partial`
 * twins are exactly the separated states with identical neighbourhoods
-  ............................................................ `twins_iff`, `twins_symm`, `rp_twins_iff`
+  ............................................................ `twins_iff`, `twins_symm`, `rp_twins_iff`,
+  `near_iff`, `recurrence_entry`
 * twin surrogates consist of original states, each followed by its own / a twin's successor
   ............................................................ `walk_step`, `walk_states_original_and_successor`,
   `rp_walk_states_original_and_successor`, `twin_walk_on_twin_lists`
@@ -142,6 +143,30 @@ theorem true_spectrum_amplitude_partial (a : ℝ) (ha : 0 ≤ a) (ψ : ℝ) :
   simp [abs_of_nonneg ha]
 
 /-! ## twins -/
+
+/-- the `for l in range(dimension)` loop with its `break`: neighbours iff every
+component differs by at most the threshold (supremum norm) -/
+theorem near_iff (thr : Rat) (u v : List Rat) :
+    near thr u v = true ↔ ∀ p ∈ List.zip u v, p.1 - p.2 ≤ thr ∧ p.2 - p.1 ≤ thr := by
+  induction u generalizing v with
+  | nil => simp [near]
+  | cons a as ih =>
+    cases v with
+    | nil => simp [near]
+    | cons b bs =>
+      have := ih bs
+      simp [near] at this ⊢
+      simp [this]
+
+/-- entry `(j, k)` of the recurrence matrix `_twins_s` builds: one on the
+diagonal, elsewhere the neighbour test of the two state vectors -/
+theorem recurrence_entry (thr : Rat) (emb : List (List Rat)) (j k : Nat) (u v : List Rat)
+    (hj : emb[j]? = some u) (hk : emb[k]? = some v) :
+    (recMatrix thr emb)[j]?.bind (·[k]?) = some (j == k || near thr u v) := by
+  simp [recMatrix, List.getElem?_zipIdx, hj, hk]
+
+example : recMatrix (1 / 2) [[0, 1], [1, 2], [0, 3 / 2]]
+    = [[true, false, true], [false, true, false], [true, false, true]] := by decide +kernel
 
 /-- `_twins_s`: `k` is listed for `j` iff the two are more than `min_dist`
 apart and have identical rows in the recurrence matrix with more than one
